@@ -30,12 +30,14 @@ impl Default for Cfg {
 
 impl Cfg {
     pub fn to_config(self) -> Config {
-        Config {
-            max_width: self.column,
-            tab_spaces: self.tab,
-            reorder_import_items: self.reorder,
-            blank_lines_upper_bound: self.blank,
-        }
+        // (field assignment over the default, so that a Config that grows a field still builds:
+        // the harness is an embedder that sets the four documented knobs and nothing else)
+        let mut c = Config::default();
+        c.max_width = self.column;
+        c.tab_spaces = self.tab;
+        c.reorder_import_items = self.reorder;
+        c.blank_lines_upper_bound = self.blank;
+        c
     }
 }
 
